@@ -295,6 +295,7 @@ func instantiatedScript(as []*Term, goal *Term) string {
 // quantifier-free parts and the ground instances remain (plus axioms that carry an explicit pattern). Fewer
 // assumptions, so unsat is still a proof; without quantifiers to instantiate the solvers answer at once.
 func groundScript(as []*Term, goal *Term) string {
+	instReadsDone = map[[2]*Term]bool{}
 	// (=> A C) under the assumptions is C under the assumptions and A: the antecedents (path condition, the
 	// antecedent of a conditional postcondition) are treated like every other assumption — instantiated, skolemised
 	for goal.Op == "=>" && len(goal.Args) == 2 {
@@ -416,6 +417,28 @@ func groundScript(as []*Term, goal *Term) string {
 				insts = append(insts, is...)
 			}
 			cands = append(cands, fresh...)
+		}
+	}
+	// round 1c: array axioms. A quantifier without a range guard whose variable indexes a ground array —
+	// (forall p. ... (select A p) ...), the shape of the copy / append / frame axioms — is instantiated at the ground
+	// indices at which A is read anywhere in the goal, the ground assumptions and the instances so far (twice: the
+	// instances read further arrays).
+	for round := 0; round < 2; round++ {
+		reads := map[*Term][]*Term{}
+		seenR := map[*Term]bool{}
+		collectReads(g, seenR, reads)
+		for _, a := range ground {
+			collectReads(a, seenR, reads)
+		}
+		for _, a := range insts {
+			collectReads(a, seenR, reads)
+		}
+		added := 0
+		for qi := len(quant) - 1; qi >= 0 && added < 1200; qi-- {
+			added += instantiateReads(quant[qi], nil, reads, &insts)
+		}
+		if added == 0 {
+			break
 		}
 	}
 	// round 2: the assumptions again at the witnesses (only instances that mention a witness are new)
@@ -673,4 +696,90 @@ func splitAtom(goal *Term) *Term {
 		}
 	}
 	return nil
+}
+
+
+// collectReads: ground (select A t) terms, grouped by the array A.
+func collectReads(t *Term, seen map[*Term]bool, out map[*Term][]*Term) {
+	if seen[t] {
+		return
+	}
+	seen[t] = true
+	if t.Op == "select" && len(t.Args) == 2 && !hasBound(t) {
+		a, i := t.Args[0], t.Args[1]
+		dup := false
+		for _, o := range out[a] {
+			if o == i {
+				dup = true
+				break
+			}
+		}
+		if !dup && len(out[a]) < 24 {
+			out[a] = append(out[a], i)
+		}
+	}
+	if hasBound(t) && (t.Op == "forall" || t.Op == "exists") {
+		return
+	}
+	for _, a := range t.Args {
+		collectReads(a, seen, out)
+	}
+}
+
+var instReadsDone = map[[2]*Term]bool{}
+
+// instantiateReads: instances of the unranged universal quantifiers in positive position of a, at the indices at
+// which the arrays they index are read. Returns the number of instances added.
+func instantiateReads(a *Term, guards []*Term, reads map[*Term][]*Term, out *[]*Term) int {
+	n := 0
+	switch {
+	case a.Op == "=>" && len(a.Args) == 2 && !hasBound(a.Args[0]):
+		n += instantiateReads(a.Args[1], append(append([]*Term{}, guards...), a.Args[0]), reads, out)
+	case a.Op == "and":
+		for _, c := range a.Args {
+			n += instantiateReads(c, guards, reads, out)
+		}
+	case isQuant(a, "forall"):
+		v, ok := binderVar(a.Args[0])
+		if !ok || isRanged(a.Args[1], v) {
+			return 0
+		}
+		// arrays indexed by exactly the bound variable
+		var arrs []*Term
+		seen := map[*Term]bool{}
+		var walk func(t *Term)
+		walk = func(t *Term) {
+			if seen[t] || !hasBound(t) {
+				return
+			}
+			seen[t] = true
+			if t.Op == "select" && len(t.Args) == 2 && t.Args[1] == v && !hasBound(t.Args[0]) {
+				arrs = append(arrs, t.Args[0])
+			}
+			for _, x := range t.Args {
+				walk(x)
+			}
+		}
+		walk(a.Args[1])
+		done := map[*Term]bool{}
+		for _, arr := range arrs {
+			for _, idx := range reads[arr] {
+				if done[idx] || instReadsDone[[2]*Term{a, idx}] {
+					continue
+				}
+				done[idx] = true
+				instReadsDone[[2]*Term{a, idx}] = true
+				b := substVar(a.Args[1], v, idx, map[*Term]*Term{})
+				if hasBound(b) {
+					continue
+				}
+				if len(guards) > 0 {
+					b = implies(and(guards...), b)
+				}
+				*out = append(*out, b)
+				n++
+			}
+		}
+	}
+	return n
 }
